@@ -480,14 +480,18 @@ std::vector<std::array<float, 3>> special_vectors() {
   std::vector<std::array<float, 3>> v;
   for (int m = 0; m < 8; ++m) v.push_back({m & 1 ? -0.f : 0.f, m & 2 ? -0.f : 0.f, m & 4 ? -0.f : 0.f});
   const float denorm[3] = {1.4e-45f, 1e-41f, 1.17549421e-38f};
-  const double abssum[10] = {2e-6, 1.001e-6, 0.999e-6, 1e-7, 1e-10, 1e-20, 1e-30, 3.6e-38, 1e30, 3e38};
+  // 5e38 and 9e38: every component is a finite float32 but |x|+|y|+|z| exceeds FLT_MAX (only for directions with >= 2 non-zero components)
+  const double abssum[12] = {2e-6, 1.001e-6, 0.999e-6, 1e-7, 1e-10, 1e-20, 1e-30, 3.6e-38, 1e30, 3e38, 5e38, 9e38};
   for (int a = -1; a <= 1; ++a)
     for (int b = -1; b <= 1; ++b)
       for (int c = -1; c <= 1; ++c) {
         if (!a && !b && !c) continue;
         for (float d : denorm) v.push_back({a * d, b * d, c * d});
         const double n = std::abs(a) + std::abs(b) + std::abs(c);
-        for (double S : abssum) v.push_back({float(a * S / n), float(b * S / n), float(c * S / n)});
+        for (double S : abssum) {
+          if (S / n > 3.4e38) continue;  // a component would not be a finite float32
+          v.push_back({float(a * S / n), float(b * S / n), float(c * S / n)});
+        }
       }
   return v;
 }
@@ -527,7 +531,7 @@ void add_special(mc::Runner &R, const std::string &name) {
   };
   sp.describe = [=](uint64_t idx) {
     return "q=" + std::to_string(2 + idx) + ": " + std::to_string(vecs->size()) +
-           " zero / denormal / short (abs sum 2e-6..3.6e-38) / huge (1e30, 3e38) vectors in the 26 axis, edge and corner "
+           " zero / denormal / short (abs sum 2e-6..3.6e-38) / huge (1e30, 3e38, and abs-sum above FLT_MAX: 5e38, 9e38) vectors in the 26 axis, edge and corner "
            "directions, toolbox and attribute path";
   };
   sp.klass = [=](uint64_t idx) { return "q=" + std::to_string(2 + idx) + "|special-vectors"; };
